@@ -46,14 +46,14 @@ Theorem C02_complex_hs_choi_round_trips : forall (F : OF) d (B : nat -> cmat F),
      chs_of_choi d B (cchoi_of_hs d B H) a b = H a b) /\
   (basis_complete d B -> forall (Ch : cmat F) i j, (i < d * d)%nat -> (j < d * d)%nat ->
      cchoi_of_hs d B (chs_of_choi d B Ch) i j = Ch i j).
-Proof. intros F d B. split; intros HB M a b Ha Hb; [now apply chs_of_cchoi|now apply cchoi_of_chs]. Qed.
+Proof. exact complex_hs_choi_round_trips_thm. Qed.
 Print Assumptions C02_complex_hs_choi_round_trips.
 
 (* Frobenius isometry (polarised): <Choi(H), Choi(H')> = <H, H'>; for real HS matrices ||Choi||_F^2 = sum HS_ab^2 *)
 Theorem C02_choi_isometry : forall (F : OF) d (B : nat -> cmat F), basis_orthonormal d B ->
   (forall H H' : cmat F, hs_inner (d * d) (cchoi_of_hs d B H) (cchoi_of_hs d B H') = hs_inner (d * d) H H') /\
   (forall HS HS' : rmat F, hs_inner (d * d) (choi_of_hs d B HS) (choi_of_hs d B HS') = zof (inner (d * d) (d * d) HS HS')).
-Proof. intros F d B Ho. split; intros; [now apply cchoi_isometry|now apply choi_frobenius]. Qed.
+Proof. exact choi_isometry_thm. Qed.
 Print Assumptions C02_choi_isometry.
 
 (* ---------------------------------------------------------------- Kraus *)
@@ -138,9 +138,7 @@ Theorem C02_variants_agree : forall (F : OF) d (B : nat -> cmat F),
   (forall (H : cmat F) i j, choi_dict d B H i j = cchoi_of_hs d B H i j) /\
   (forall (Ch : cmat F) a b, (b < d * d)%nat -> chs_sparse d B Ch a b = chs_of_choi d B Ch a b) /\
   (basis_hermitian d B -> forall (Ch : cmat F) a b, (a < d * d)%nat -> (b < d * d)%nat -> chs_dict d B Ch a b = chs_of_choi d B Ch a b).
-Proof. intros F d B. repeat split; intros.
-  - now apply density_sparse_eq. - apply cvec_sparse_eq. - now apply choi_sparse_eq. - apply choi_dict_eq.
-  - now apply chs_sparse_eq. - rewrite chs_dict_eq. now apply chs_of_choi_dict_eq. Qed.
+Proof. exact variants_agree_thm. Qed.
 Print Assumptions C02_variants_agree.
 
 (* ---------------------------------------------------------------- linearity of every linear conversion *)
@@ -158,20 +156,29 @@ Theorem C02_linearity : forall (F : OF) d (B B' : nat -> cmat F),
   (forall (v w : cvec F) a, convert_vec d B B' (vadd v w) a = vadd (convert_vec d B B' v) (convert_vec d B B' w) a) /\
   (forall (k : CF F) (v : cvec F) a, convert_vec d B B' (vscale k v) a = vscale k (convert_vec d B B' v) a) /\
   map_linear d (capply_hs d B (fun _ _ => c0 (CF F))) /\ (forall Ks : list (cmat F), map_linear d (kraus_apply d Ks)).
-Proof. intros F d B B'. repeat split; intros.
-  - apply op_of_vec_add. - apply op_of_vec_scale. - apply cvec_of_op_add. - apply cvec_of_op_scale.
-  - apply cchoi_of_hs_add. - apply cchoi_of_hs_scale. - apply chs_of_choi_add. - apply chs_of_choi_scale.
-  - apply convert_hs_add. - apply convert_hs_scale. - apply convert_vec_add. - apply convert_vec_scale.
-  - apply (proj1 (capply_hs_linear F d B _)); assumption. - apply (proj2 (capply_hs_linear F d B _)); assumption.
-  - apply (proj1 (kraus_apply_linear F d Ks)); assumption. - apply (proj2 (kraus_apply_linear F d Ks)); assumption. Qed.
+Proof. exact linearity_thm. Qed.
 Print Assumptions C02_linearity.
 
-(* ---------------------------------------------------------------- truncate_hs: value / error branch, and the conversions built on it *)
+(* ---------------------------------------------------------------- truncate_hs: value / error branch, and the conversions built on it.
+   Model of matrix_util.truncate_hs as repaired by fix truncate-hs-relative-imag-threshold (owner C04): the imaginary parts are compared
+   with thr = eps * max(1, largest |re| of the array); the real parts with eps. *)
 Theorem C02_truncate_hs_spec : forall (F : OF) (eps : F) m n (H : cmat F),
-  (forall i j, (i < m)%nat -> (j < n)%nat -> trunc_ok eps (H i j) = true) /\ truncate_hs eps m n H = Some (fun i j => trunc_val eps (H i j))
-  \/ (exists i j, (i < m)%nat /\ (j < n)%nat /\ trunc_ok eps (H i j) = false) /\ truncate_hs eps m n H = None.
+  (forall i j, (i < m)%nat -> (j < n)%nat -> trunc_ok (im_thr eps (hs_size m n H)) (H i j) = true) /\ truncate_hs eps m n H = Some (fun i j => trunc_val eps (H i j))
+  \/ (exists i j, (i < m)%nat /\ (j < n)%nat /\ trunc_ok (im_thr eps (hs_size m n H)) (H i j) = false) /\ truncate_hs eps m n H = None.
 Proof. exact truncate_hs_spec. Qed.
 Print Assumptions C02_truncate_hs_spec.
+
+(* what the threshold is: hs_size is the largest |re H_ij| (an upper bound, below every non-negative upper bound); an entry passes iff
+   its imaginary part is 0 or smaller in modulus than thr; thr = eps when no real part exceeds 1 (then the function is the one coded
+   before that fix) and thr >= eps always *)
+Theorem C02_truncate_hs_threshold : forall (F : OF) (eps : F) m n (H : cmat F),
+  (forall i j, (i < m)%nat -> (j < n)%nat -> kle F (kabs (re (H i j))) (hs_size m n H)) /\
+  (forall c, kle F (c0 F) c -> (forall i j, (i < m)%nat -> (j < n)%nat -> kle F (kabs (re (H i j))) c) -> kle F (hs_size m n H) c) /\
+  (forall thr (z : CF F), trunc_ok thr z = true <-> (~ kle F thr (kabs (im z)) \/ im z = c0 F)) /\
+  (kle F (hs_size m n H) (c1 F) -> im_thr eps (hs_size m n H) = eps) /\
+  (kle F (c0 F) eps -> kle F eps (im_thr eps (hs_size m n H))).
+Proof. exact truncate_hs_threshold_thm. Qed.
+Print Assumptions C02_truncate_hs_threshold.
 
 (* on legitimate input (Hermitian basis, Hermitian argument) the truncating conversions do not raise and return the
    specified real representation with the entries below eps set to 0 (trunc_val z = re z, or 0 when |re z| < eps) *)
@@ -180,8 +187,7 @@ Theorem C02_truncating_conversions_ok : forall (F : OF) (eps : F) d (B : nat -> 
   (forall Ch : cmat F, hermitian (d * d) Ch -> hs_of_choi_sparse_impl eps d B Ch = Some (fun a b => trunc_val eps (chs_of_choi d B Ch a b))) /\
   (forall Ks : list (cmat F), hs_of_kraus_impl eps d B Ks = Some (fun a b => trunc_val eps (chs_of_kraus_impl d B Ks a b))) /\
   (forall z : CF F, trunc_val eps z = re z \/ (trunc_val eps z = c0 F /\ ~ kle F eps (kabs (re z)))).
-Proof. intros F eps d B Hh. repeat split; intros.
-  - now apply vec_of_op_impl_ok. - now apply hs_of_choi_sparse_impl_ok. - now apply hs_of_kraus_impl_ok. - apply trunc_val_cases. Qed.
+Proof. exact truncating_conversions_ok_thm. Qed.
 Print Assumptions C02_truncating_conversions_ok.
 
 (* ---------------------------------------------------------------- variables <-> Choi *)
@@ -191,17 +197,31 @@ Theorem C02_to_var_from_choi_spec_round_trip : forall (F : OF) d (B : nat -> cma
 Proof. exact var_of_choi_spec_round_trip. Qed.
 Print Assumptions C02_to_var_from_choi_spec_round_trip.
 
-(* full statement, FALSE of the faithful model of gate.to_var_from_choi (it applies the FORWARD map HS->Choi to the Choi matrix):
+(* gate.to_var_from_choi as repaired by fix gate-to-var-from-choi-inverse-map (var_of_choi_fixed = to_hs_from_choi_with_sparsity, incl.
+   truncation and ValueError branch, then convert_hs_to_var) — the model the harness compares with the implementation:
+   on the Choi matrix of ANY variable vector (any d, orthonormal basis, both parametrisations, any eps) it does not raise and returns the
+   variables with the entries of modulus < eps set to 0; hence exactly the variables when no non-zero variable is below eps *)
+Theorem C02_to_var_from_choi_round_trip : forall (F : OF) (eps : F) d (B : nat -> cmat F) para (v : rvec F), basis_orthonormal d B ->
+  (exists w, var_of_choi_fixed eps d B para (choi_of_var d B para v) = Some w /\
+             forall k, (k < var_len d para)%nat -> w k = trunc_val eps (zof (v k))) /\
+  ((forall k, (k < var_len d para)%nat -> v k = c0 F \/ kle F eps (kabs (v k))) ->
+   exists w, var_of_choi_fixed eps d B para (choi_of_var d B para v) = Some w /\ forall k, (k < var_len d para)%nat -> w k = v k).
+Proof. exact to_var_from_choi_round_trip_thm. Qed.
+Print Assumptions C02_to_var_from_choi_round_trip.
+
+(* Statement that was FALSE of gate.to_var_from_choi AS CODED BEFORE fix gate-to-var-from-choi-inverse-map (var_of_choi_before_fix applies the
+   FORWARD map HS->Choi to the Choi matrix):
      forall d B para v k, basis_orthonormal d B -> basis_complete d B -> k < var_len d para ->
-       var_of_choi_impl d B para (choi_of_var d B para v) k = zof (v k).
-   Refutation, witness: two qubits, normalised Pauli basis, gate H (x) I, variable 1 (implementation 0, true value 1). *)
-Theorem C02_to_var_from_choi_refuted :
+       var_of_choi_before_fix d B para (choi_of_var d B para v) k = zof (v k).
+   Refutation, witness: two qubits, normalised Pauli basis, gate H (x) I, variable 1 (old code 0, true value 1).  The harness replays this
+   witness on the real code on every run and expects the REPAIRED behaviour (theorem above). *)
+Theorem C02_to_var_from_choi_before_fix_refuted :
   exists (d : nat) (B : nat -> cmat Qc_OF) (v : rvec Qc_OF) (k : nat),
     basis_orthonormal d B /\ basis_complete d B /\ basis_hermitian d B /\ (k < var_len d true)%nat /\
     var_of_choi_spec d B true (choi_of_var d B true v) k = v k /\
-    var_of_choi_impl d B true (choi_of_var d B true v) k <> zof (v k).
-Proof. exact to_var_from_choi_refuted. Qed.
-Print Assumptions C02_to_var_from_choi_refuted.
+    var_of_choi_before_fix d B true (choi_of_var d B true v) k <> zof (v k).
+Proof. exact to_var_from_choi_before_fix_refuted. Qed.
+Print Assumptions C02_to_var_from_choi_before_fix_refuted.
 
 (* ---------------------------------------------------------------- non-vacuity *)
 (* the hypotheses are satisfiable exactly: 2-qubit normalised Pauli basis over Qc (entries 0, +-1/2, +-i/2), sd = 2 *)
@@ -211,6 +231,18 @@ Proof. exact (conj pauli2n_orthonormal (conj pauli2n_complete (conj pauli2n_herm
 (* ... and the computational basis is orthonormal and complete (not Hermitian) in every dimension over every field *)
 Example C02_example_comp_basis : forall (F : OF) d, basis_orthonormal d (comp_basis (F := F) d) /\ basis_complete d (comp_basis (F := F) d).
 Proof. intros F d. split; [apply comp_basis_orthonormal|apply comp_basis_complete]. Qed.
+(* the repaired to_var_from_choi on the witness of the refutation (H (x) I, eps = 10^-13): defined; variable 1 comes back as 1, variable 0 as 0 *)
+Example C02_example_var_fixed :
+  exists w, var_of_choi_fixed (F := Qc_OF) (Q2Qc (1 # 10000000000000)) 4 P2 true (choi_of_var 4 P2 true var_HI) = Some w /\
+            w 1%nat = 1%Qc /\ w 0%nat = 0%Qc.
+Proof. destruct (var_of_choi_fixed_round_trip Qc_OF (Q2Qc (1 # 10000000000000)) 4 P2 true var_HI pauli2n_orthonormal) as [w [E W]].
+  exists w. split; [exact E|]. split; rewrite W by (vm_compute; lia); vm_compute; reflexivity. Qed.
+(* truncate_hs on a concrete 1 x 2 array with a real part above 1: imaginary part 3/2*eps is below thr = 2*eps (accepted: Some), 5/2*eps is not (None) *)
+Example C02_example_truncate_threshold :
+  let eps : Qc_OF := Q2Qc (1 # 1000) in
+  truncate_hs eps 1 2 (fun _ j => if Nat.eqb j 0 then (Q2Qc 2, Q2Qc (3 # 2000)) else (Q2Qc (1 # 2), 0%Qc)) <> None /\
+  truncate_hs eps 1 2 (fun _ j => if Nat.eqb j 0 then (Q2Qc 2, Q2Qc (5 # 2000)) else (Q2Qc (1 # 2), 0%Qc)) = None.
+Proof. split; [vm_compute; discriminate|vm_compute; reflexivity]. Qed.
 (* a concrete non-trivial instance of the round trips and of the Kraus theorem: H (x) I and the Kraus list [K] with K = 2 * P2_5 *)
 Example C02_example_values :
   hs_of_choi 4 P2 (choi_of_hs 4 P2 hs_HI) 1%nat 1%nat = 1%Qc /\ hs_HI 1%nat 1%nat = 1%Qc /\
